@@ -9,6 +9,16 @@ real TCPRequestHandler) whose modules are the generated classes G (vf/genmods_no
               two histories with the same canon have the same futures for change/do requests, because the dispatcher,
               the wrappers, checkLimits and the generated hooks read nothing but these parameter values (the virtual
               clock advances by 1 s per request, so the 'omit unchanged' window never matters)
+  bound     = quick (3 classes): every single request, and all sequences of 2 requests whose first is a history step or
+              the first accepted change of each other parameter (one representative value; the value of such a parameter
+              can not influence a later answer) and whose second ranges over the full alphabet; thorough (6 classes): all
+              sequences of <= 2 requests over the full alphabet in both positions, plus
+              all sequences of 3 requests whose first two are *history steps* (accepted changes of a dynamic limit, of a
+              parameter carrying limits, or of a parameter with struct members - the only values the answer to a later
+              request depends on) and whose last ranges over the full alphabet.  States are deduplicated on canon; after an
+              accepted change the explorer returns to the state by a real `change` back to the previous value (same
+              canonical state, still a real request sequence); a problem found on a node that has answered other requests
+              is confirmed on a fresh node with exactly (history, request) before it is recorded with that minimal case.
   alphabet  = computed per state from the *reference* view of the shape (never from the implementation):
               every accessible x {valid payloads, bad/boundary payloads, partial structs, payloads around the current
               <p>_min/_max/_limits} for writable parameters; readonly / constant targets; commands with valid / bad /
@@ -436,12 +446,18 @@ class World:
         self.ref = G.reference(shape)
         cls = G.make_class(shape)
         self.node = nodes.Node({MOD: {'cls': cls}, HIDDEN_MOD: {'cls': G.make_class(G.HIDDEN_SHAPE), 'export': False}})
+        # debug records are not consulted by this check; formatting several of them per request dominates the run time
+        import logging
+        for name, lg in list(logging.Logger.manager.loggerDict.items()):
+            if name.startswith(self.node.log.name) and hasattr(lg, 'setLevel'):
+                lg.setLevel(logging.WARNING)
         self.c1 = self.node.connect()
         self.c2 = self.node.connect()
         self.node.request(self.c2, 'activate')
         self.c2.take()
         self.executed = []     # letters executed since build
         self.snap = self.snapshot()
+        self._canon = None
 
     def close(self):
         self.node.close()
@@ -466,7 +482,9 @@ class World:
         return {k.split(':', 1)[1]: v[0] for k, v in self.snap.items() if k.startswith(MOD + ':')}
 
     def canon(self):
-        return json.dumps(sorted((k, repr(v[0]), v[1]) for k, v in self.snap.items()))
+        if self._canon is None:
+            self._canon = json.dumps(sorted((k, repr(v[0]), v[1]) for k, v in self.snap.items()))
+        return self._canon
 
     def logs(self):
         return {mname: list(G.module_driver(mod).log) for mname, mod in self.mods().items()}
@@ -497,6 +515,7 @@ class World:
         self.executed.append(letter)
         delta = {m: G.module_driver(mod).log[nlog[m]:] for m, mod in self.mods().items()}
         self.snap = self.snapshot()
+        self._canon = None
         return {'reply': reply, 'extra': extra, 'delta': delta, 'before': before, 'after': self.snap,
                 'updates': self.c2.take(), 'internal': internal,
                 'new_internal': {a: p.value for a, p in self.mods()[MOD].parameters.items()}}
@@ -528,31 +547,7 @@ def target_class(exp, letter):
     return 'cmd:' + (exp.rec['arg'][0] if exp.rec['arg'] else 'noarg')
 
 
-def export_of(spec, r):
-    """wire form of an internal value, written from the SECoP rules (not frappy's export_value)"""
-    k = spec[0]
-    if k == 'double':
-        return float(r)
-    if k == 'int':
-        return int(r)
-    if k == 'scaled':
-        return round(r / spec[1])
-    if k == 'bool':
-        return bool(r)
-    if k == 'enum':
-        return int(getattr(r, 'value', r))
-    if k == 'string':
-        return str(r)
-    if k == 'blob':
-        return base64.b64encode(r).decode('ascii')
-    if k == 'array':
-        return [export_of(spec[1], e) for e in r]
-    if k == 'tuple':
-        return [export_of(m, e) for m, e in zip(spec[1], r)]
-    if k == 'struct':
-        members = dict(spec[1])
-        return {n: export_of(members[n], e) for n, e in r.items()}
-    raise ValueError(spec)
+export_of = G.export_of
 
 
 def jsonable(x):
@@ -571,8 +566,11 @@ def judge_step(ref, letter, state, obs):
     problems = []
     tcls = target_class(exp, letter)
     head = f'C04:{action}:{tcls}:{exp.reason}'
-    desc = (f'request {line_of(letter).decode()!r} in state {json.dumps(state, default=repr)[:300]}: '
-            f'reply {json.dumps(jsonable(reply))[:200]}')
+    class Desc:     # built only when something is reported
+        def __str__(self):
+            return (f'request {line_of(letter).decode()!r} in state {json.dumps(state, default=repr)[:300]}: '
+                    f'reply {json.dumps(jsonable(reply))[:200]}')
+    desc = Desc()
 
     def bad(what, more=''):
         problems.append((f'{head}:{what}', f'{desc}; {more}'))
@@ -593,19 +591,28 @@ def judge_step(ref, letter, state, obs):
     if refused:
         outcome = f'refused:{exp.reason}'
         errclass = reply[2][0] if isinstance(reply[2], list) and reply[2] else None
+        # nothing may have happened (reported first: an error report after the hardware was touched is one defect, not
+        # three)
+        short = f'C04:{action}:{tcls}'
+        if calls:
+            problems.append((f'{short}:error-reply-but-driver-called:{errclass}',
+                             f'{desc}; driver calls: {calls!r:.300}; cache changes: {changed}'))
+            return outcome, problems
+        if changed:
+            problems.append((f'{short}:error-reply-but-cache-changed:{errclass}', f'{desc}; changed: '
+                             f'{[(k, obs["before"].get(k), obs["after"][k]) for k in changed]!r:.300}'))
+            return outcome, problems
+        if obs['updates']:
+            bad('refused-but-update-emitted', f"activated connection received {jsonable(obs['updates'])!r:.300}")
         if exp.verdict == 'accept':
             bad(f'valid-request-refused:{errclass}', f'the reference conversion of the payload is {exp.value!r}')
         elif errclass not in exp.classes:
-            why = '' if exp.verdict == 'refuse' else f':{kind_of(x)}-payload'
-            bad(f'error-class:{errclass}{why}:{norm(reply[2][1]) if errclass == "InternalError" else ""}'.rstrip(':'),
-                f'expected one of {sorted(exp.classes)}')
-        # nothing may have happened
-        if calls:
-            bad('refused-but-driver-called', f'driver calls: {calls!r:.300}')
-        if changed:
-            bad('refused-but-cache-changed', f'changed: {[(k, obs["before"].get(k), obs["after"][k]) for k in changed]!r:.300}')
-        if obs['updates']:
-            bad('refused-but-update-emitted', f"activated connection received {jsonable(obs['updates'])!r:.300}")
+            # the signature names the request class and the classes involved, not the parameter kind
+            why = '' if exp.verdict == 'refuse' else f':{kind_of(x)}-payload-for-{tcls.split(":")[-1]}'
+            sig = f'C04:{action}:{exp.reason}:error-class:{errclass}{why}'
+            if errclass == 'InternalError':
+                sig += ':' + norm(reply[2][1])
+            problems.append((sig, f'{desc}; expected one of {sorted(exp.classes)}'))
         return outcome, problems
 
     # accepted
@@ -747,6 +754,7 @@ def expand(shard):
     canon0 = w.canon()
     letters = alphabet(ref, state0, core.TIER)
     depth = len(history) + 1
+    represented = set()
     for letter in letters:
         state = w.state()
         pre = list(w.executed)
@@ -780,7 +788,10 @@ def expand(shard):
                     part.violation(sig, case, detail)
         moved = w.canon() != canon0
         if moved and not problems:
-            if want_succ == 'all' or (want_succ == 'hist' and letter.get('hist')):
+            repkey = (letter['a'], letter['name'])
+            if want_succ == 'all' or (want_succ in ('hist', 'rep') and letter.get('hist')) or \
+                    (want_succ == 'rep' and repkey not in represented):
+                represented.add(repkey)
                 part.succ.append((shape['name'], w.canon(), list(history) + [letter]))
             # return to the state by a real request (change back to the previous exported value); the state reached is
             # the same canonical state, all histories stay real request sequences
@@ -842,7 +853,8 @@ def run(ctx):
             if last:
                 return False
             if d == 1:
-                return 'all'
+                # quick: every history step, and one representative accepted change of each other accessible
+                return 'rep' if ctx.tier == 'quick' else 'all'
             return 'hist' if all(l.get('hist') for l in hist) else False
         shards = [(byname[n], hist, 'request', want(hist)) for n, hist in frontier]
         if d == 1:
@@ -869,11 +881,17 @@ def run(ctx):
                 'letter of the alphabet computed for that state is executed (change of every accessible with all valid, '
                 'bad/boundary, partial-struct, around-current-limit payloads; readonly / constant targets; do with valid / bad / '
                 'missing / superfluous argument; internal, unexported, unknown and cross-kind names; unexported and unknown '
-                f'module), to depth {b["depth"]}; all depth-1 requests also through the real TCPRequestHandler. '
+                f'module), to depth {b["depth"]} (quick: the first of 2 requests is a history step or one representative accepted '
+                'change per other parameter, thorough: full alphabet in both positions; sequences of 3 requests: the first two restricted to history steps = accepted '
+                'changes of a dynamic limit, of a parameter carrying limits or of a parameter with struct members); all depth-1 '
+                'requests also through the real TCPRequestHandler. '
                 'evaluations = requests judged; distinct_nontrivial = requests that are not plain valid payloads; '
                 'states = distinct canonical states expanded or reached up to depth-1 of the bound; transitions = requests '
                 'executed including history replays')
-    ctx.coverage.update(bound_completed=f'request sequences of length <= {b["depth"]}', classes=len(shapes),
+    ctx.coverage.update(bound_completed=('request sequences of length <= 2, first request = history step or one representative '
+                                         'accepted change per other parameter' if ctx.tier == 'quick' else
+                                         'request sequences of length <= 2 over the full alphabet + length 3 with history-step '
+                                         'prefixes'), classes=len(shapes),
                         states_per_depth={str(k): v for k, v in nstates.items()})
     ctx.assume('module shapes, payloads and limits outside the generated family / catalogues are not covered',
                'poll threads are not running (requests are the only actors); time is virtual, +1 s per request',
